@@ -180,7 +180,7 @@ impl Property for C01 {
     fn cases(tier: Tier) -> u32 {
         match tier {
             Tier::Quick => 640,
-            Tier::Thorough => 8000,
+            Tier::Thorough => 100000,
         }
     }
 
